@@ -55,6 +55,9 @@ pub struct FlowState {
     /// a segment other than the first carried bytes for a protocol that is not parsed
     /// incrementally (outcome unspecified from then on)
     pub muddled: bool,
+    /// the flow was identified as a message-per-segment protocol (SSH, STUN, Gh0st, SMB) and every
+    /// segment so far was a complete message: later segments are judged as messages of it
+    pub per_message: Option<crate::sig::Proto>,
 }
 
 /// Reference connection table: set of validated flows, each with the bytes received so far.
@@ -189,6 +192,8 @@ impl Model {
         for (k, f) in &tbl.flows {
             let st = if f.muddled {
                 "M".to_string()
+            } else if let Some(p) = f.per_message {
+                format!("PM:{}", p.name())
             } else if f.answered {
                 "A".to_string()
             } else {
